@@ -14,6 +14,8 @@ CHECK = {
                   "harness": {"internal/ipset": ["zz_verif_c17_*_test.go"]}},
         "acl": {"pkg": "middleware/accesslist", "run": "TestVerifC17ACL",
                 "harness": {"middleware/accesslist": ["zz_verif_c17_*_test.go"]}},
+        "pipeline": {"pkg": "internal/verifshim/h_c17", "run": "TestVerifC17Pipeline",
+                     "harness": {"middleware": ["zz_verif_export_c17.go"]}, "shards": 7, "gomaxprocs": 4},
         "views": {"pkg": "middleware/views", "run": "TestVerifC17Views",
                   "harness": {"middleware/views": ["zz_verif_c17_*_test.go"]}},
     },
